@@ -18,6 +18,7 @@
 #include <setjmp.h>
 #include <unistd.h>
 #include <sys/mman.h>
+#include <sys/time.h>
 #include <malloc.h>
 #include <turbojpeg.h>
 #include "jconfig.h"
@@ -114,6 +115,19 @@ static void on_fault(int sig, siginfo_t *si, void *uc)
   siglongjmp(jb, 1);
 }
 
+static void on_alarm(int sig)
+{
+  (void)sig;
+  if (in_call) siglongjmp(jb, 3);
+}
+static void arm(long ms)
+{
+  struct itimerval it;
+  memset(&it, 0, sizeof it);
+  it.it_value.tv_sec = ms / 1000; it.it_value.tv_usec = (ms % 1000) * 1000;
+  setitimer(ITIMER_REAL, &it, NULL);
+}
+
 /* ------------------------------------------------------------ small helpers */
 static long geti(const char *line, const char *key, long dflt)
 {
@@ -197,6 +211,9 @@ typedef struct {
   char kind[8], api[8];
   int bits, w, h, ss, pf, pad, bu, num, den, cx, cy, cw, ch, side, ll, fast, align, sx[3];
   int ow, oh, nb;
+  int wA, hA, ssA, n1, d1, same;                       /* hist: first image and first scaling factor */
+  int sx_, sy_, sw_, sh_;                              /* hist: region as stored by tj3SetCroppingRegion */
+  unsigned char *jpegA; size_t jpegASize;
   cbuf b[MAXB];
   plane_geom pg[3]; int npg;       /* unified buffer planes (buffer id 1) */
   unsigned char *jpeg; size_t jpegSize;                 /* source JPEG of decompression cases */
@@ -247,6 +264,24 @@ static int do_call(kase *k, int pass)
     if (k->bits <= 8) rc = tj3Compress8(h, k->b[0].g.buf, k->w, pitch, k->h, k->pf, &k->out[pass], &k->outSize[pass]);
     else if (k->bits <= 12) rc = tj3Compress12(h, (short *)k->b[0].g.buf, k->w, pitch, k->h, k->pf, &k->out[pass], &k->outSize[pass]);
     else rc = tj3Compress16(h, (unsigned short *)k->b[0].g.buf, k->w, pitch, k->h, k->pf, &k->out[pass], &k->outSize[pass]);
+  } else if (!strcmp(k->kind, "hist")) {
+    /* header(A), scale 1, region, scale 2, [header(F)], decompress(F) -- all on one handle */
+    h = mk(TJINIT_DECOMPRESS);
+    tj3Set(h, TJPARAM_BOTTOMUP, k->bu); tj3Set(h, TJPARAM_FASTUPSAMPLE, k->fast);
+    int pitch = k->pad < 0 ? 0 : k->ow * ps_of(k->pf) + k->pad;
+    tjscalingfactor s1 = { k->n1, k->d1 }, s2 = { k->num, k->den };
+    tjregion r = { k->cx, k->cy, k->cw, k->ch };
+    rc = tj3DecompressHeader(h, k->jpegA, k->jpegASize);
+    if (!rc) rc = tj3SetScalingFactor(h, s1);
+    if (!rc) (void)tj3SetCroppingRegion(h, r);
+    if (!rc) rc = tj3SetScalingFactor(h, s2);
+    if (!rc && !k->same) rc = tj3DecompressHeader(h, k->jpeg, k->jpegSize);
+    if (!rc) {
+      const unsigned char *jb_ = k->same ? k->jpegA : k->jpeg; size_t js_ = k->same ? k->jpegASize : k->jpegSize;
+      if (k->bits <= 8) rc = tj3Decompress8(h, jb_, js_, k->b[0].g.buf, pitch, k->pf);
+      else rc = tj3Decompress12(h, jb_, js_, (short *)k->b[0].g.buf, pitch, k->pf);
+    }
+    if (rc) { if (h) tj3Destroy(h); return -3; }
   } else if (!strcmp(k->kind, "pk")) {
     h = mk(TJINIT_DECOMPRESS);
     tj3Set(h, TJPARAM_BOTTOMUP, k->bu); tj3Set(h, TJPARAM_FASTUPSAMPLE, k->fast);
@@ -309,6 +344,25 @@ static int setup(kase *k)
 {
   int ssz = k->bits > 8 ? 2 : 1, ps = ps_of(k->pf);
   k->nb = 0; k->npg = 0;
+  if (!strcmp(k->kind, "hist")) {
+    /* which region does tj3SetCroppingRegion store?  ask the library (accept / reject), normalise here */
+    tjhandle p = mk(TJINIT_DECOMPRESS);
+    tjscalingfactor s1 = { k->n1, k->d1 };
+    tjregion r = { k->cx, k->cy, k->cw, k->ch };
+    int ok = !tj3DecompressHeader(p, k->jpegA, k->jpegASize) && !tj3SetScalingFactor(p, s1) && !tj3SetCroppingRegion(p, r);
+    tj3Destroy(p);
+    int swA = (k->wA * k->n1 + k->d1 - 1) / k->d1, shA = (k->hA * k->n1 + k->d1 - 1) / k->d1;
+    k->sx_ = k->sy_ = k->sw_ = k->sh_ = 0;
+    if (ok && (k->cx || k->cy || k->cw || k->ch)) {
+      k->sx_ = k->cx; k->sy_ = k->cy; k->sw_ = k->cw ? k->cw : swA - k->cx; k->sh_ = k->ch ? k->ch : shA - k->cy;
+    }
+    int fw = k->same ? k->wA : k->w, fh = k->same ? k->hA : k->h;
+    int sw = (fw * k->num + k->den - 1) / k->den, sh = (fh * k->num + k->den - 1) / k->den;
+    if (k->sx_ || k->sy_ || k->sw_ || k->sh_) { k->ow = k->sw_; k->oh = k->sh_; } else { k->ow = sw; k->oh = sh; }
+    int pitch = k->pad < 0 ? k->ow * ps : k->ow * ps + k->pad;
+    cbuf_geom(&k->b[k->nb++], 0, 'W', k->oh, (size_t)pitch * ssz, (size_t)k->ow * ps * ssz, ssz, (1 << k->bits) - 1);
+    return 0;
+  }
   if (!strcmp(k->kind, "pk")) {
     if (!strcmp(k->api, "cmp")) { k->ow = k->w; k->oh = k->h; }
     else {
@@ -389,7 +443,19 @@ static void run_api_case(const char *line)
   k->sx[0] = geti(line, "s0", 0); k->sx[1] = geti(line, "s1", 0); k->sx[2] = geti(line, "s2", 0);
   if (k->pf < 0 || k->pf >= TJ_NUMPF || k->ss < 0 || k->ss >= TJ_NUMSAMP || k->w < 1 || k->h < 1 || k->den < 1) { printf("?\n"); return; }
 
-  int needjpeg = (!strcmp(k->kind, "pk") && strcmp(k->api, "cmp")) || !strncmp(k->api, "d2", 2);
+  int hist = !strcmp(k->kind, "hist");
+  if (hist) {
+    strcpy(k->api, "dec");
+    k->wA = geti(line, "wA", 1); k->hA = geti(line, "hA", 1); k->ssA = geti(line, "ssA", 0);
+    k->n1 = geti(line, "n1", 1); k->d1 = geti(line, "d1", 1); k->same = geti(line, "same", 0);
+    if (k->wA < 1 || k->hA < 1 || k->ssA < 0 || k->ssA >= TJ_NUMSAMP || k->d1 < 1 || k->bits > 12 || k->pf == TJPF_CMYK) { printf("?\n"); return; }
+    int w = k->w, hh = k->h, ss = k->ss;
+    k->w = k->wA; k->h = k->hA; k->ss = k->ssA;
+    if (make_jpeg(k)) { printf("err %s\n", k->err); return; }
+    k->jpegA = k->jpeg; k->jpegASize = k->jpegSize; k->jpeg = NULL;
+    k->w = w; k->h = hh; k->ss = ss;
+  }
+  int needjpeg = hist || (!strcmp(k->kind, "pk") && strcmp(k->api, "cmp")) || !strncmp(k->api, "d2", 2);
   if (needjpeg && make_jpeg(k)) { printf("err %s\n", k->err); return; }
   if (setup(k)) { printf("err %s\n", k->err); tj3Free(k->jpeg); return; }
   for (int i = 0; i < k->nb; i++) {
@@ -402,11 +468,24 @@ static void run_api_case(const char *line)
   int canary_bad = 0, canary_buf = 0; long canary_off = 0;
   for (int pass = 0; pass < 2 && !outcome; pass++) {
     for (int i = 0; i < k->nb; i++) load_content(k, &k->b[i], pass, seed);
-    int rc;
+    int rc, sj;
     in_call = 1;
-    if (sigsetjmp(jb, 1) == 0) rc = do_call(k, pass);
-    else rc = -9;
+    sj = sigsetjmp(jb, 1);
+    if (sj == 0) { arm(hist ? 500 : 5000); rc = do_call(k, pass); }
+    else rc = (sj == 3) ? -8 : -9;
     in_call = 0;
+    arm(0);
+    if (rc == -8) { outcome = 4; break; }
+    if (rc == -3) {
+      /* rejected: nothing may have been written */
+      outcome = 5;
+      for (int i = 0; i < k->nb; i++) {
+        cbuf *b = &k->b[i]; long off;
+        if (gslack_bad(&b->g, &off)) { canary_bad = 1; canary_buf = b->id; canary_off = off; }
+        for (size_t j = 0; j < b->size && !canary_bad; j++) if (b->g.buf[j] != FILL[pass]) { canary_bad = 2; canary_buf = b->id; canary_off = (long)j; }
+      }
+      break;
+    }
     if (rc == -9) {
       outcome = 3; segv_pass = pass;
       for (int i = 0; i < k->nb; i++) {
@@ -429,13 +508,16 @@ static void run_api_case(const char *line)
       }
     }
   }
-  if (outcome == 3) printf("segv buf=%d off=%ld pass=%d\n", segv_buf, segv_off, segv_pass);
+  if (outcome == 4) printf("hang\n");
+  else if (outcome == 5) {
+    if (canary_bad) printf("err rej-wrote b%d@%ld\n", canary_buf, canary_off); else printf("err rej\n");
+  } else if (outcome == 3) printf("segv buf=%d off=%ld pass=%d\n", segv_buf, segv_off, segv_pass);
   else if (outcome == 2) printf("err crop\n");
   else if (outcome == 1) printf("err %s\n", k->err);
   else {
     int det = 1;
     printf("ok");
-    if (!strcmp(k->kind, "pk")) printf(" ow=%d oh=%d", k->ow, k->oh);
+    if (!strcmp(k->kind, "pk") || hist) printf(" ow=%d oh=%d", k->ow, k->oh);
     for (int i = 0; i < k->nb; i++) {
       cbuf *b = &k->b[i];
       printf(" b%d=%zu:", b->id, b->size);
@@ -454,7 +536,146 @@ static void run_api_case(const char *line)
   }
   for (int i = 0; i < k->nb; i++) { free(k->b[i].mod); free(k->b[i].first); }
   gfree_all();
-  tj3Free(k->jpeg); tj3Free(k->out[0]); tj3Free(k->out[1]);
+  tj3Free(k->jpeg); tj3Free(k->jpegA); tj3Free(k->out[0]); tj3Free(k->out[1]);
+}
+
+/* ------------------------------------------------------------ huge pitches: sparse buffers */
+/* A caller buffer whose rows are far apart (pitch * (height-1) >= 2^31): the whole extent plus 2 GiB
+   in front of it is reserved PROT_NONE (MAP_NORESERVE) and only the pages holding a documented row are
+   made accessible.  Slack inside those pages carries canaries. */
+typedef struct {
+  int id; char mode;
+  uint8_t *map; size_t maplen; uint8_t *buf;
+  size_t nrows, stride, rowbytes;
+  uint8_t *seen;                 /* W: nrows*rowbytes flags "modified in some pass" */
+} sbuf;
+#define PFLOOR(p) ((uint8_t *)((uintptr_t)(p) & ~(uintptr_t)(PG - 1)))
+#define PCEIL(p)  ((uint8_t *)(((uintptr_t)(p) + PG - 1) & ~(uintptr_t)(PG - 1)))
+
+static int salloc(sbuf *s, int id, char mode, size_t nrows, size_t stride, size_t rowbytes)
+{
+  size_t ext = (nrows - 1) * stride + rowbytes;
+  size_t before = (((size_t)1 << 31) + 2 * PG);
+  memset(s, 0, sizeof *s);
+  s->id = id; s->mode = mode; s->nrows = nrows; s->stride = stride; s->rowbytes = rowbytes;
+  if (nrows > 1 && stride < rowbytes + 2 * PG) return -1;
+  s->maplen = before + ((ext + PG - 1) & ~(size_t)(PG - 1)) + 2 * PG;
+  s->map = mmap(NULL, s->maplen, PROT_NONE, MAP_PRIVATE | MAP_ANONYMOUS | MAP_NORESERVE, -1, 0);
+  if (s->map == MAP_FAILED) { s->map = NULL; return -1; }
+  s->buf = s->map + before + 16 * (id + 1);        /* not page aligned */
+  if (mode == 'W') s->seen = calloc(nrows, rowbytes);
+  return 0;
+}
+static void sfree(sbuf *s) { if (s->map) munmap(s->map, s->maplen); free(s->seen); s->map = NULL; s->seen = NULL; }
+static void sload(sbuf *s, int pass, uint64_t seed)
+{
+  for (size_t r = 0; r < s->nrows; r++) {
+    uint8_t *row = s->buf + r * s->stride, *lo = PFLOOR(row), *hi = PCEIL(row + s->rowbytes);
+    mprotect(lo, hi - lo, PROT_READ | PROT_WRITE);
+    memset(lo, CANARY, hi - lo);
+    if (s->mode == 'W') memset(row, FILL[pass], s->rowbytes);
+    else { fill_rows(row, 1, s->rowbytes, s->rowbytes, 1, 255, seed + r * 131 + s->id); mprotect(lo, hi - lo, PROT_READ); }
+  }
+}
+/* returns 0 ok, else 1 and *off = first stray byte (relative to buf) */
+static int scheck(sbuf *s, int pass, long long *off)
+{
+  for (size_t r = 0; r < s->nrows; r++) {
+    uint8_t *row = s->buf + r * s->stride, *lo = PFLOOR(row), *hi = PCEIL(row + s->rowbytes);
+    for (uint8_t *p = lo; p < row; p++) if (*p != CANARY) { *off = p - s->buf; return 1; }
+    for (uint8_t *p = row + s->rowbytes; p < hi; p++) if (*p != CANARY) { *off = p - s->buf; return 1; }
+    if (s->mode == 'W') for (size_t j = 0; j < s->rowbytes; j++) if (row[j] != FILL[pass]) s->seen[r * s->rowbytes + j] = 1;
+  }
+  return 0;
+}
+
+static void run_big_case(const char *line)
+{
+  char api[8];
+  gets_(line, "api", api, sizeof api);
+  int w = geti(line, "w", 8), h = geti(line, "h", 2), ss = geti(line, "ss", 0), pf = geti(line, "pf", 0);
+  int pad = geti(line, "pad", 0), bu = geti(line, "bu", 0);
+  int sx[3] = { (int)geti(line, "s0", 0), (int)geti(line, "s1", 0), (int)geti(line, "s2", 0) };
+  if (pf < 0 || pf >= TJ_NUMPF || pf == TJPF_CMYK || ss < 0 || ss >= TJ_NUMSAMP || w < 1 || h < 1 || pad < 0) { printf("?\n"); return; }
+  int ps = ps_of(pf), pitch = w * ps + pad;
+  int iscmp = !strcmp(api, "cmp"), isdec = !strcmp(api, "dec"), isenc = !strcmp(api, "encp"), isdcp = !strcmp(api, "decp");
+  if (!iscmp && !isdec && !isenc && !isdcp) { printf("?\n"); return; }
+  sbuf sb[4]; int nsb = 0;
+  kase K; memset(&K, 0, sizeof K);
+  K.bits = 8; K.w = w; K.h = h; K.ss = ss; K.pf = pf;
+  if (isdec && make_jpeg(&K)) { printf("err %s\n", K.err); return; }
+  int bad = 0;
+  if (salloc(&sb[nsb++], 0, (iscmp || isenc) ? 'R' : 'W', h, pitch, (size_t)w * ps)) bad = 1;
+  int strides[3] = { 0, 0, 0 };
+  if (isenc || isdcp) {
+    int nc = ss == TJSAMP_GRAY ? 1 : 3;
+    for (int c = 0; c < nc && !bad; c++) {
+      int pw = tj3YUVPlaneWidth(c, w, ss), ph = tj3YUVPlaneHeight(c, h, ss);
+      strides[c] = pw + sx[c];
+      if (salloc(&sb[nsb++], c + 1, isenc ? 'W' : 'R', ph, strides[c], pw)) bad = 1;
+    }
+  }
+  if (bad) { printf("err setup:sparse-map\n"); for (int i = 0; i < nsb; i++) sfree(&sb[i]); tj3Free(K.jpeg); return; }
+  int outcome = 0, fb = -1; long long foff = 0, stray_off = 0; int stray_buf = -1;
+  unsigned char *out[2] = { NULL, NULL }; size_t outSize[2] = { 0, 0 };
+  for (int pass = 0; pass < 2 && !outcome; pass++) {
+    for (int i = 0; i < nsb; i++) sload(&sb[i], pass, 4242 + w);
+    unsigned char *planes[3] = { NULL, NULL, NULL };
+    for (int i = 0; i < nsb; i++) if (sb[i].id >= 1) planes[sb[i].id - 1] = sb[i].buf;
+    int rc = 0, sj;
+    in_call = 1;
+    sj = sigsetjmp(jb, 1);
+    if (sj == 0) {
+      arm(20000);
+      tjhandle hd = mk((iscmp || isenc) ? TJINIT_COMPRESS : TJINIT_DECOMPRESS);
+      tj3Set(hd, TJPARAM_BOTTOMUP, bu); tj3Set(hd, TJPARAM_SUBSAMP, ss); tj3Set(hd, TJPARAM_QUALITY, 80);
+      if (iscmp) rc = tj3Compress8(hd, sb[0].buf, w, pitch, h, pf, &out[pass], &outSize[pass]);
+      else if (isdec) rc = tj3Decompress8(hd, K.jpeg, K.jpegSize, sb[0].buf, pitch, pf);
+      else if (isenc) rc = tj3EncodeYUVPlanes8(hd, sb[0].buf, w, pitch, h, pf, planes, strides);
+      else rc = tj3DecodeYUVPlanes8(hd, (const unsigned char * const *)planes, strides, sb[0].buf, w, pitch, h, pf);
+      if (rc) snprintf(K.err, sizeof K.err, "tj:%.60s", tj3GetErrorStr(hd));
+      tj3Destroy(hd);
+    }
+    in_call = 0;
+    arm(0);
+    if (sj == 3) { outcome = 4; break; }
+    if (sj == 1) {
+      outcome = 3;
+      for (int i = 0; i < nsb; i++)
+        if (fault_addr >= (uintptr_t)sb[i].map && fault_addr < (uintptr_t)sb[i].map + sb[i].maplen) {
+          fb = sb[i].id; foff = (long long)fault_addr - (long long)(uintptr_t)sb[i].buf;
+        }
+      break;
+    }
+    if (rc) { outcome = 1; break; }
+    for (int i = 0; i < nsb; i++) {
+      long long o;
+      if (scheck(&sb[i], pass, &o) && stray_buf < 0) { stray_buf = sb[i].id; stray_off = o; }
+    }
+  }
+  if (outcome == 4) printf("hang\n");
+  else if (outcome == 3) printf("segv buf=%d off=%lld pass=0\n", fb, foff);
+  else if (outcome == 1) printf("err %s\n", K.err);
+  else {
+    printf("ok");
+    for (int i = 0; i < nsb; i++) {
+      sbuf *b = &sb[i];
+      printf(" b%d=%zu:", b->id, (b->nrows - 1) * b->stride + b->rowbytes);
+      if (b->mode == 'R') printf("r");
+      else {
+        size_t miss = 0;
+        for (size_t j = 0; j < b->nrows * b->rowbytes; j++) if (!b->seen[j]) miss++;
+        if (miss) printf("partial%zu", miss); else printf("full");
+      }
+    }
+    int det = 1;
+    if (iscmp && (outSize[0] != outSize[1] || !out[0] || !out[1] || memcmp(out[0], out[1], outSize[0]))) det = 0;
+    printf(" ; canary=");
+    if (stray_buf >= 0) printf("bad:b%d@%lld", stray_buf, stray_off); else printf("ok");
+    printf(" det=%s\n", det ? "same" : "diff");
+  }
+  for (int i = 0; i < nsb; i++) sfree(&sb[i]);
+  tj3Free(K.jpeg); tj3Free(out[0]); tj3Free(out[1]);
 }
 
 /* ------------------------------------------------------------ libjpeg API: rows per read call */
@@ -648,10 +869,12 @@ int main(void)
   sigemptyset(&sa.sa_mask);
   sigaction(SIGSEGV, &sa, NULL);
   sigaction(SIGBUS, &sa, NULL);
+  { struct sigaction sb; memset(&sb, 0, sizeof sb); sb.sa_handler = on_alarm; sb.sa_flags = SA_NODEFER; sigemptyset(&sb.sa_mask); sigaction(SIGALRM, &sb, NULL); }
   while (fgets(line, sizeof line, stdin)) {
-    if (!strncmp(line, "pk ", 3) || !strncmp(line, "yuv ", 4)) run_api_case(line);
+    if (!strncmp(line, "pk ", 3) || !strncmp(line, "yuv ", 4) || !strncmp(line, "hist ", 5)) run_api_case(line);
     else if (!strncmp(line, "kern ", 5)) run_kern_case(line);
     else if (!strncmp(line, "rs ", 3)) run_rs_case(line);
+    else if (!strncmp(line, "big ", 4)) run_big_case(line);
     else if (!strncmp(line, "simd", 4)) {
 #ifdef WITH_SIMD
       printf("simd=1\n");
